@@ -437,7 +437,10 @@ def judge(case, res, den_base, den_written):
         sig = {"mechanism": "edit", "class": "write-raises", "error": res["write_error"]}
         return sig, f"write_to_file raised {res['write_error']} after the edits", len(script)
     t1 = ci.table(den_written)
-    for key in sorted(set(t_exp) | set(t1), key=str):
+    keys = sorted(set(t_exp) | set(t1), key=str)
+    # an input nobody asked for first: its words are missing elsewhere as a consequence
+    keys = [k for k in keys if k[0] == "data" and k not in t0 and k not in t_exp] + keys
+    for key in keys:
         a, b = t_exp.get(key), t1.get(key)
         if (key[0] == "cell" and key[-1] == "fillstar") or key[0] == "meta":
             continue
